@@ -303,7 +303,10 @@ class CourierServer(metaclass=_CourierServerSingleton):
       courier_server = self.build_server()
       if not courier_server.has_started:
         courier_server.Start()
-      if not self._thread:
+      # The serving thread of a stopped server has ended, a restart needs a new
+      # one: without it nobody announces the server, auto-shuts it down or
+      # stops it again.
+      if not self._thread or not self._thread.is_alive():
         self._thread = threading.Thread(
             target=self.run_until_shutdown, daemon=True
         )
